@@ -23,17 +23,30 @@ PROTO = "sd.ServiceDiscoveryProtocol"
 BASE = "sd.SOMEIPDatagramProtocol"
 
 
-def _mem_attr(fi, paths):
+def _mem_attr(fi, paths, foreign=None):
+    """the attribute holding the per-destination memory: the dict of self that is indexed with the destination parameter.
+    foreign (a list) collects key terms that are *derived* from the destination instead of being it."""
     key = param_at(fi, 0, "remote")
+    kp = P(fi, key)
+    derived = None
     for p in paths:
         for e in p.events:
             if e.kind in ("store", "load") and e.target and e.target[0] == "item":
                 b = e.target[1]
-                if b[0] == "attr" and b[1][0] == "self" and e.target[2] == P(fi, key):
-                    return b[2]
+                if b[0] == "attr" and b[1][0] == "self":
+                    if e.target[2] == kp:
+                        return b[2]
+                    if e.target[2] != kp and contains(e.target[2], lambda s_: s_ == kp):
+                        derived = derived or (b[2], e.target[2], e)
             if e.kind == "call" and e.attrname in ("get", "setdefault", "pop") and e.recv is not None and e.recv[0] == "attr" \
-                    and e.recv[1][0] == "self" and e.args[:1] == (P(fi, key),):
-                return e.recv[2]
+                    and e.recv[1][0] == "self":
+                if e.args[:1] == (kp,):
+                    return e.recv[2]
+                if e.args and contains(e.args[0], lambda s_: s_ == kp):
+                    derived = derived or (e.recv[2], e.args[0], e)
+    if derived is not None and foreign is not None:
+        foreign.append(derived)
+        return derived[0]
     raise AnalysisError(f"{ASSIGN}: per-destination memory keyed by the destination parameter not found")
 
 
@@ -68,7 +81,17 @@ def check(run, prog, tier):
     run.analysed(fi)
     paths = eng.paths(fi)
     run.paths += len(paths)
-    mem = _mem_attr(fi, paths)
+    foreign = []
+    mem = _mem_attr(fi, paths, foreign)
+    if foreign:
+        # the counters are "per destination": the key has to be the destination itself.  A key computed from it (a
+        # normalised / shortened address) lets two destinations share one counter and one reboot flag - each of them then
+        # sees gaps, and the second one starts with a cleared flag after the first has wrapped
+        _a, kt, ev_ = foreign[0]
+        run.ob("Q2", f"{ASSIGN}:memory-keyed-by-the-destination", False, loc(fi, ev_.node),
+               f"self.{mem} is indexed with {show(kt)[:80]}, which is derived from the destination: distinct destinations "
+               "(e.g. one link-local address reached through two interfaces) can share a session counter")
+        return
     memterm = ("attr", ("self", STORAGE), mem)
     keyp = P(fi, param_at(fi, 0, "remote"))
 
